@@ -47,7 +47,7 @@ CLAUSES = {
     "any pattern of short reads": "arrival_independent (results depend only on the stream) + searchWith_prefix_stable/crlf2_prefix_stable",
     "delimiter not found within max_bytes closes the stream instead of returning more": "unsat_closes + no_result_over_max",
 }
-PARALLEL = True
+PARALLEL = False    # 1 ms per case in-process; forking a pool costs more than it saves (measured: 34 s vs 4 s)
 CASE_TIMEOUT = 120
 
 REGEXES = [rb"\r?\n\r?\n", rb"[0-9]+x"]
@@ -320,21 +320,7 @@ class Runner:
                     "kinds": [self.futs[f][1] for f in sorted(self.futs)]}
 
 
-_FROZEN_PID = [None]
-
-
-def _freeze_once():
-    """In a forked pool worker a full cyclic GC touches every object inherited from the parent (copy-on-write
-    faults on thousands of case dicts): seconds per collection.  Park the inherited heap in the permanent
-    generation once per process."""
-    import gc, os
-    if _FROZEN_PID[0] != os.getpid():
-        _FROZEN_PID[0] = os.getpid()
-        gc.freeze()
-
-
 def run_impl(case):
-    _freeze_once()
     if case.get("kind") == "regex":
         out = []
         for rid, hx in case["items"]:
